@@ -26,7 +26,7 @@ def main():
             if s.count(old) != 1:
                 print("MUTANT %s: pattern occurs %d times in %s" % (name, s.count(old), f)); return 3
             open(p, "w").write(s.replace(old, new))
-        env = dict(os.environ, VERIF_REPO=wt)
+        env = dict(os.environ, VERIF_REPO=wt, VERIF_EVIDENCE_DIR=os.path.join(d, "evidence"), VERIF_REPLAY_DIR=os.path.join(d, "replays"))
         rc_all = []
         for pid in props:
             r = subprocess.run(["/verif/check", pid, "--tier", tier], env=env, stdout=subprocess.PIPE, stderr=subprocess.STDOUT, text=True)
